@@ -32,6 +32,8 @@ SYM = [
     ("ref", ["b", "a"]), ("ref", ["c", "a", "c"]), ("def", "c", ""),
     ("refd", ["a"]), ("refd", ["b", "a"]),  # references inside a directive body (rendered by a nested parse)
     ("ref", ["A"]), ("def", "A", ""), ("ref", ["a", "A"]),  # labels are case-sensitive: [^A] is not [^a]
+    ("def", "02", ""), ("def", "10", ""), ("ref", ["10", "02"]),  # numeric labels are ordered by value, not as strings ('02' < '3' < '10')
+    ("def", "a", "n"), ("def", "3", ""),  # 'n': a duplicate definition nested in the body of the first one
 ]
 SYM_SMALL = [0, 1, 2, 4, 6, 7, 8, 12, 13, 16]
 BULLETS = "-*+"
@@ -50,6 +52,8 @@ def text_of(seq):
                 body = "> " + body
             if s[2] == "l":
                 body = f"{BULLETS[i % 3]} " + body
+            if s[2] == "n":
+                body = body + f"\n\n    [^{s[1]}]: N{i}{s[1]}"
             out.append(body)
     return "\n\n".join(out) + "\n"
 
@@ -63,6 +67,8 @@ def model(seq, sort):
             else:
                 seen.add(s[1])
                 defs.append((s[1], i))
+                if s[2] == "n":
+                    dups += 1  # (the body of a dropped duplicate is not rendered: its nested duplicate is never met)
     refs = [(l, i) for i, s in enumerate(seq) if s[0] in ("ref", "refd") for l in s[1]]
     manual = {l for l, _ in defs if l.isdigit()}
     autos = [l for l, _ in defs if not l.isdigit()]
@@ -178,7 +184,11 @@ def evaluate(seq, sort, trans, text, doc, warn, front_end):
         if len(set(labels)) != len(labels):
             bad("label", f"footnote labels not pairwise distinct: {labels}", kind="duplicate-label")
         # kept definitions and their text
-        got_texts = Counter(f.astext().split("\n\n", 1)[-1] if isinstance(f[0], nodes.label) else f.astext() for f in fns)
+        def body_text(f):
+            # without the label and without reports attached inside the footnote
+            return "\n\n".join(c.astext() for c in f.children if not isinstance(c, (nodes.label, nodes.system_message)))
+
+        got_texts = Counter(body_text(f) for f in fns)
         exp_texts = Counter(f"D{i}{l}" for l, i in defs)
         if got_texts != exp_texts:
             bad("text-lost", f"footnote bodies {sorted(got_texts.elements())}, expected {sorted(exp_texts.elements())}")
@@ -238,6 +248,17 @@ def evaluate(seq, sort, trans, text, doc, warn, front_end):
         os_ = structure(doc)
         fn_only = all(t[0] in ("fn", "tr") for t in os_) or not any(s[0] in ("ref", "refd") or s[2] in "ql" for s in seq)
         if sort and set(onum) == set(num):
+            # labels of equal numeric value ('02' and an automatic '2') may come in either order
+            def tie_norm(lst):
+                k = len(lst)
+                while k and lst[k - 1][0] == "fn":
+                    k -= 1
+                tail = lst[k:]
+                if all(int(a[1]) <= int(b[1]) for a, b in zip(tail, tail[1:])):
+                    tail = sorted(tail, key=lambda t: (int(t[1]), t[2]))
+                return lst[:k] + tail
+
+            ms, os_ = tie_norm(ms), tie_norm(os_)
             if fn_only:
                 ms = [t for t in ms if t[0] != "tr"]
                 os_ = [t for t in os_ if t[0] != "tr"]
@@ -303,5 +324,5 @@ class SphinxFootnoteSystem(System):
 
 def systems(tier):
     if tier == "quick":
-        return [FootnoteSystem(tier, "arrangements", list(range(13)) + [16, 17, 19, 20], 3), FootnoteSystem(tier, "arrangements-deep", SYM_SMALL, 4), SphinxFootnoteSystem(tier)]
+        return [FootnoteSystem(tier, "arrangements", list(range(13)) + [16, 17, 19, 20, 21, 22, 23, 24, 25], 3), FootnoteSystem(tier, "arrangements-deep", SYM_SMALL, 4), SphinxFootnoteSystem(tier)]
     return [FootnoteSystem(tier, "arrangements", list(range(len(SYM))), 4), FootnoteSystem(tier, "arrangements-deep", SYM_SMALL, 6), SphinxFootnoteSystem(tier)]
